@@ -29,7 +29,7 @@ def _script(rng, tier, nprod, nxt):
 
 def gen_mpsc(rng, tier):
     cases = []
-    for _ in range(n_cases(tier, 260, 5000)):
+    for _ in range(n_cases(tier, 500, 6000)):
         nprod = rng.choice([2, 2, 3, 3, 4])
         spare = rng.choice([2, 3]) * nprod if rng.random() < 0.7 else rng.choice([0, 1, 2])
         cases.append({"args": [spare, _script(rng, tier, nprod, [1])], "env": sched_env(rng)})
@@ -38,7 +38,7 @@ def gen_mpsc(rng, tier):
 
 def gen_spsc(rng, tier):
     cases = []
-    for _ in range(n_cases(tier, 140, 3000)):
+    for _ in range(n_cases(tier, 250, 3000)):
         spare = rng.choice([0, 1, 2, 3])
         cases.append({"args": [spare, _script(rng, tier, 1, [1])], "env": sched_env(rng)})
     return cases
@@ -46,7 +46,7 @@ def gen_spsc(rng, tier):
 
 def gen_mpscr(rng, tier):
     cases = []
-    for _ in range(n_cases(tier, 200, 4000)):
+    for _ in range(n_cases(tier, 400, 5000)):
         nprod = rng.choice([2, 2, 3, 4])
         np_ = nprod + (1 if rng.random() < 0.2 else 0)  # sometimes an unused producer slot
         spare = rng.choice([2, 3]) * nprod if rng.random() < 0.7 else rng.choice([0, 1, 2])
